@@ -6,6 +6,7 @@ import (
 	"fmt"
 	"go/token"
 	"go/types"
+	"sort"
 	"strings"
 
 	"golang.org/x/tools/go/ssa"
@@ -390,6 +391,45 @@ func ruleC09Exclusive(c *Ctx) {
 	}
 	if n == 0 {
 		c.S.Undecided("R-C09-exclusive", fnName(h)+":replay", c.Pos(h.Pos()), "EXEC handler does not call the dispatcher")
+		return
+	}
+	// one exclusive section spans the whole replay: inside the loop that replays the queue nothing (other than the
+	// replayed command itself, whose nested lock/unlock are no-ops under the exclusive hold) releases the database lock
+	var yields []string
+	for _, in := range instrsOf(h) {
+		call, ok := in.(*ssa.Call)
+		if !ok || call.Call.StaticCallee() != t.dispatchHandler {
+			continue
+		}
+		loopBlk := call.Block()
+		for _, b := range h.Blocks {
+			if !(plainReachAvoid(loopBlk, b, nil) && plainReachAvoid(b, loopBlk, nil)) && b != loopBlk {
+				continue
+			}
+			if !blockInCycle(loopBlk) {
+				continue
+			}
+			for _, in2 := range b.Instrs {
+				c2, ok := in2.(*ssa.Call)
+				if !ok || c2 == call {
+					continue
+				}
+				if op, cls, _ := lm.lockOp(c2); op < 0 && cls == lm.DB {
+					yields = append(yields, fmt.Sprintf("unlock at %s", c.Pos(c2.Pos())))
+				}
+				for _, g := range c.Callees(c2) {
+					if everReleasesDB(c, lm, g, map[*ssa.Function]bool{}) {
+						yields = append(yields, fmt.Sprintf("%s at %s", fnName(g), c.Pos(c2.Pos())))
+					}
+				}
+			}
+		}
+	}
+	if len(yields) == 0 {
+		c.S.OK("R-C09-exclusive", fnName(h)+":no-release-in-replay-loop", c.Pos(h.Pos()), "nothing inside the replay loop releases the database lock")
+	} else {
+		sort.Strings(yields)
+		c.S.Bad("R-C09-exclusive", fnName(h)+":no-release-in-replay-loop", c.Pos(h.Pos()), "the replay loop of EXEC releases the database lock between queued commands ("+yields[0]+"): other clients run in the middle of the transaction and see it half-done")
 	}
 }
 
@@ -886,4 +926,31 @@ func ruleC09Replay(c *Ctx) {
 			c.S.OK("R-C09-replay-unconditional", key, c.Pos(c.InstrPos(ifi)), "the branch depends on the command, the handler table or the test hook only")
 		}
 	}
+}
+
+// everReleasesDB: g (or something it calls statically) contains a release of the database mutex — even if it takes the
+// lock again before returning, other clients get in between.
+func everReleasesDB(c *Ctx, lm *LockModel, g *ssa.Function, seen map[*ssa.Function]bool) bool {
+	if seen[g] || !c.InPkg(g) {
+		return false
+	}
+	seen[g] = true
+	for _, in := range instrsOf(g) {
+		call, ok := in.(ssa.CallInstruction)
+		if !ok {
+			continue
+		}
+		if cv, ok := in.(*ssa.Call); ok {
+			if op, cls, _ := lm.lockOp(cv); op < 0 && cls == lm.DB {
+				return true
+			}
+		}
+		if d, ok := in.(*ssa.Defer); ok {
+			_ = d
+		}
+		if h := call.Common().StaticCallee(); h != nil && everReleasesDB(c, lm, h, seen) {
+			return true
+		}
+	}
+	return false
 }
